@@ -155,7 +155,7 @@ func verifyStore(acc consensus.ElementAccumulator, st *sim.Store) (int, error) {
 type updateStats struct {
 	updates, compared, excluded, proofs int
 	withUpdatedLeaves, refreshed        int // fully compared updates: with rewritten leaves / that changed a held proof
-	reverts                             int
+	reverts, attestations               int
 }
 
 type update interface {
@@ -168,7 +168,7 @@ type update interface {
 // requires that the copy reports the same diffs and refreshes the store `pre` to exactly
 // `post` (what the original produced), every element of which verifies against acc.
 func compareUpdate(where string, u update, fresh any, pre, post *sim.Store, acc consensus.ElementAccumulator,
-	apply func(st *sim.Store, u2 any) error, excl bool, us *updateStats) error {
+	apply func(st *sim.Store, u2 any) error, excl bool, us *updateStats, blk *types.Block) error {
 	us.updates++
 	js, err := safeMarshal(u)
 	if err != nil {
@@ -198,6 +198,35 @@ func compareUpdate(where string, u update, fresh any, pre, post *sim.Store, acc 
 	}
 	if d := gen.Diff(reflect.ValueOf(u.ChainIndexElement()), reflect.ValueOf(u2.ChainIndexElement())); d != "" {
 		return stats.Failf("C20/update-json/diffs", "%s: chain index element differs after a JSON round trip: %s", where, d)
+	}
+	// attestation elements are only visible in the JSON form: they must be the block's attestations
+	var att struct {
+		AttestationElements []types.AttestationElement `json:"attestationElements"`
+	}
+	if err := safeUnmarshal(js2, &att); err != nil {
+		return stats.Failf("C20/update-json", "%s: attestation elements of the update's JSON do not parse: %v", where, err)
+	}
+	var wantAtt []types.AttestationElement
+	if blk != nil {
+		for _, txn := range blk.V2Transactions() {
+			txid := txn.ID()
+			for i, a := range txn.Attestations {
+				wantAtt = append(wantAtt, types.AttestationElement{ID: txn.AttestationID(txid, i), Attestation: a})
+			}
+		}
+	}
+	if len(att.AttestationElements) != len(wantAtt) {
+		return stats.Failf("C20/update-json/attestations", "%s: the block has %d attestations, the round-tripped update's JSON carries %d attestation elements", where, len(wantAtt), len(att.AttestationElements))
+	}
+	for i := range wantAtt {
+		got := att.AttestationElements[i]
+		if got.ID != wantAtt[i].ID {
+			return stats.Failf("C20/update-json/attestations", "%s: attestation element %d has id %v, want %v", where, i, got.ID, wantAtt[i].ID)
+		}
+		if d := gen.Diff(reflect.ValueOf(wantAtt[i].Attestation), reflect.ValueOf(got.Attestation)); d != "" {
+			return stats.Failf("C20/update-json/attestations", "%s: attestation element %d differs from the block's attestation: %s", where, i, d)
+		}
+		us.attestations++
 	}
 	class := hasUpdatedLeaves(js)
 	key := "C20/update-json/proofs"
@@ -257,6 +286,9 @@ func (us *updateStats) report(rec *stats.Rec, fp uint64, extraLabels ...string) 
 	if us.reverts > 0 {
 		labels = append(labels, "update:revert-updates")
 	}
+	if us.attestations > 0 {
+		labels = append(labels, "update:attestation-elements")
+	}
 	rec.Case(fp, nt, labels...)
 	rec.Extra("updates-round-tripped", uint64(us.updates))
 	rec.Extra("updates-fully-compared", uint64(us.compared))
@@ -309,19 +341,19 @@ func checkChainExcl(c sim.ChainCase, excl bool) error {
 	hooks := sim.Hooks{
 		Genesis: func(ch *sim.Chain, au consensus.ApplyUpdate) error {
 			post = []*sim.Store{ch.Stores[0]}
-			return compareUpdate("genesis", au, new(consensus.ApplyUpdate), sim.NewStore(), ch.Store, ch.Tip().Elements, applyTo, excl, &us)
+			return compareUpdate("genesis", au, new(consensus.ApplyUpdate), sim.NewStore(), ch.Store, ch.Tip().Elements, applyTo, excl, &us, &ch.Blocks[0])
 		},
 		AfterApply: func(ch *sim.Chain, st *sim.Step, parent consensus.State, au consensus.ApplyUpdate) error {
 			h := ch.Height()
 			note(au)
 			post = append(post[:h], ch.Stores[h])
-			return compareUpdate(fmt.Sprintf("apply of block %d", h), au, new(consensus.ApplyUpdate), ch.Stores[h-1], ch.Store, ch.Tip().Elements, applyTo, excl, &us)
+			return compareUpdate(fmt.Sprintf("apply of block %d", h), au, new(consensus.ApplyUpdate), ch.Stores[h-1], ch.Store, ch.Tip().Elements, applyTo, excl, &us, st.Block)
 		},
 		AfterRevert: func(ch *sim.Chain, st *sim.Step, b types.Block, bs consensus.V1BlockSupplement, ru consensus.RevertUpdate) error {
 			h := ch.Height() + 1
 			us.reverts++
 			tip := ch.Tip()
-			return compareUpdate(fmt.Sprintf("revert of block %d", h), ru, new(consensus.RevertUpdate), post[h], ch.Store, tip.Elements, revertTo(tip.Elements.NumLeaves), excl, &us)
+			return compareUpdate(fmt.Sprintf("revert of block %d", h), ru, new(consensus.RevertUpdate), post[h], ch.Store, tip.Elements, revertTo(tip.Elements.NumLeaves), excl, &us, &b)
 		},
 	}
 	ch, err := sim.Replay(c, hooks)
@@ -412,7 +444,7 @@ func checkSynExcl(c SynCase, excl bool) error {
 	if err != nil {
 		return stats.Failf("C20/syn", "genesis: %v", err)
 	}
-	if err := compareUpdate("genesis", au, new(consensus.ApplyUpdate), sim.NewStore(), ch.Store, ch.Tip().Elements, applyTo, excl, &us); err != nil {
+	if err := compareUpdate("genesis", au, new(consensus.ApplyUpdate), sim.NewStore(), ch.Store, ch.Tip().Elements, applyTo, excl, &us, &genesis); err != nil {
 		return err
 	}
 	post := []*sim.Store{ch.Stores[0]}
@@ -424,13 +456,14 @@ func checkSynExcl(c SynCase, excl bool) error {
 				continue
 			}
 			h := ch.Height()
+			rb := ch.Blocks[h]
 			ru, err := ch.Revert()
 			if err != nil {
 				return stats.Failf("C20/syn", "op %d revert: %v", i, err)
 			}
 			us.reverts++
 			tip := ch.Tip()
-			if err := compareUpdate(fmt.Sprintf("op %d (revert of block %d)", i, h), ru, new(consensus.RevertUpdate), post[h], ch.Store, tip.Elements, revertTo(tip.Elements.NumLeaves), excl, &us); err != nil {
+			if err := compareUpdate(fmt.Sprintf("op %d (revert of block %d)", i, h), ru, new(consensus.RevertUpdate), post[h], ch.Store, tip.Elements, revertTo(tip.Elements.NumLeaves), excl, &us, &rb); err != nil {
 				return err
 			}
 			continue
@@ -463,7 +496,7 @@ func checkSynExcl(c SynCase, excl bool) error {
 		h := ch.Height()
 		post = append(post[:h], ch.Stores[h])
 		where := fmt.Sprintf("op %d (apply of block %d: spend=%b grow=%d on %d leaves)", i, h, op.Spend, grow, parent.Elements.NumLeaves)
-		if err := compareUpdate(where, au, new(consensus.ApplyUpdate), ch.Stores[h-1], ch.Store, ch.Tip().Elements, applyTo, excl, &us); err != nil {
+		if err := compareUpdate(where, au, new(consensus.ApplyUpdate), ch.Stores[h-1], ch.Store, ch.Tip().Elements, applyTo, excl, &us, &blk); err != nil {
 			return err
 		}
 		if o, nn := parent.Elements.NumLeaves, ch.Tip().Elements.NumLeaves; len(txn.SiacoinInputs) > 0 && (o^nn) > o {
